@@ -28,9 +28,11 @@ def episodes(prop, seed, n, full, outputs, n_inst, budget=70):
                 # corpus patterns come without an AST: `pattern` is then not asserted by the spec
                 pats = []
         else:
-            schema, pats = jsgen.top_schema(rng, full=full, depth=rng.choice([1, 2, 2, 3]))
+            schema, pats, khints = jsgen.top_schema(rng, full=full, depth=rng.choice([1, 2, 2, 3]))
             name = f"s{i}"
         text = json.dumps(schema, ensure_ascii=False)
+        if i < len(fixed) and not full:
+            khints = []
         insts = []
         for _ in range(n_inst):
             v = jsgen.gen_instance(rng, schema, schema)
@@ -40,7 +42,7 @@ def episodes(prop, seed, n, full, outputs, n_inst, budget=70):
         g = {"kind": "json", "schema": schema}
         eps.append({"gid": name, "schema_text": text, "pats": pats, "vocab": vocab_choice(rng), "outputs": outputs,
                     "budget": budget, "seed": rng.randrange(1 << 30), "instances": insts,
-                    "hints": rel.hints_for(g), "slices": rng.choice([[], "default"])})
+                    "hints": rel.hints_for(g) + [list(json.dumps(k).encode()) for k in khints], "slices": rng.choice([[], "default"])})
     return eps
 
 
